@@ -126,6 +126,9 @@ type c17MgrRun struct {
 	unstable   bool
 	aborted    bool
 	executed   []c17MOp
+
+	dead    chan string // a panic inside one of the Manager's own loops (see guard)
+	deadMsg string
 }
 
 var c17Host host.Host
@@ -186,11 +189,59 @@ func c17NewMgrRunWith(t *testing.T, r *zv.Run, seq c17MSeq, wrapDS func(datastor
 		blocked: map[int]bool{}, discovered: map[int]bool{}, announced: map[int]map[int]bool{}, confirmed: map[int]bool{}}
 	ctx, cancel := context.WithCancel(context.Background())
 	x.cancel = cancel
-	go m.subscribeHeader(ctx, x.hsub)
-	go m.subscribeDisconnectedPeers(ctx, x.esub)
+	x.dead = make(chan string, 2)
+	go x.guard(func() { m.subscribeHeader(ctx, x.hsub) })
+	go x.guard(func() { m.subscribeDisconnectedPeers(ctx, x.esub) })
 	<-x.hsub.ready
 	x.injectClocks()
 	return x
+}
+
+// guard runs one of the Manager's own loops; a panic inside it (it would end the test binary and with it every finding of the
+// run) is handed to the goroutine that is feeding the loop, which reports it like a panic of a direct call.
+func (x *c17MgrRun) guard(loop func()) {
+	defer func() {
+		if r := recover(); r != nil {
+			x.dead <- fmt.Sprint(r)
+		}
+	}()
+	loop()
+}
+
+func (x *c17MgrRun) loopDied(msg string) {
+	x.deadMsg = msg
+	panic("in the Manager's subscription loop: " + msg)
+}
+
+// feedHeader hands one header to the real subscribeHeader loop and waits until the loop asks for the next one
+func (x *c17MgrRun) feedHeader(h *header.ExtendedHeader) {
+	if x.deadMsg != "" {
+		panic("the Manager's subscription loop has ended: " + x.deadMsg)
+	}
+	select {
+	case x.hsub.ch <- h:
+	case msg := <-x.dead:
+		x.loopDied(msg)
+	}
+	select {
+	case <-x.hsub.ready:
+	case msg := <-x.dead:
+		x.loopDied(msg)
+	}
+}
+
+// feedDisconnect hands a disconnect event to the real subscribeDisconnectedPeers loop; the second event is a barrier
+func (x *c17MgrRun) feedDisconnect(id peer.ID) {
+	if x.deadMsg != "" {
+		panic("the Manager's subscription loop has ended: " + x.deadMsg)
+	}
+	for _, c := range []network.Connectedness{network.NotConnected, network.Connected} {
+		select {
+		case x.esub.out <- event.EvtPeerConnectednessChanged{Peer: id, Connectedness: c}:
+		case msg := <-x.dead:
+			x.loopDied(msg)
+		}
+	}
 }
 
 func (x *c17MgrRun) close() {
@@ -285,8 +336,7 @@ func (x *c17MgrRun) apply1(op c17MOp) {
 		}
 	case "header":
 		before := x.nodesList()
-		x.hsub.ch <- &header.ExtendedHeader{RawHeader: header.RawHeader{Height: int64(op.Height), DataHash: []byte(c17Hash(op.H))}}
-		<-x.hsub.ready
+		x.feedHeader(&header.ExtendedHeader{RawHeader: header.RawHeader{Height: int64(op.Height), DataHash: []byte(c17Hash(op.H))}})
 		x.confirmed[op.H] = true
 		x.events = append(x.events, fmt.Sprintf("MHeader %s %s %s", zv.N(uint64(op.H)), zv.N(uint64(op.Height)), c17IntsTerm(x.newNodes(before))))
 	case "peer":
@@ -347,8 +397,7 @@ func (x *c17MgrRun) apply1(op c17MOp) {
 		}
 		x.events = append(x.events, fmt.Sprintf("MUpdate %s %s", zv.N(uint64(op.P)), zv.Bool(op.Added)))
 	case "disconnect":
-		x.esub.out <- event.EvtPeerConnectednessChanged{Peer: x.peerID(op.P), Connectedness: network.NotConnected}
-		x.esub.out <- event.EvtPeerConnectednessChanged{Peer: x.peerID(op.P), Connectedness: network.Connected} // barrier
+		x.feedDisconnect(x.peerID(op.P))
 		x.events = append(x.events, fmt.Sprintf("MDisconnect %s", zv.N(uint64(op.P))))
 	case "gc":
 		bl := m.cleanUp()
